@@ -4,6 +4,6 @@ python3-vt - <<'PY'
 import json,jsonschema,glob
 jsonschema.validate(json.load(open('/verif/MANIFEST.json')),json.load(open('/root/.vp/MANIFEST.schema.json')));print('manifest ok')
 s=json.load(open('/root/.vp/EVIDENCE.schema.json'))
-for f in sorted(glob.glob('/verif/evidence/*.json')):
+for f in sorted(f for f in glob.glob('/verif/evidence/*.json') if not f.endswith('.replay.json')):
     jsonschema.validate(json.load(open(f)),s);print(f,'ok')
 PY
